@@ -4,6 +4,7 @@ import (
 	"errors"
 	"fmt"
 	"io"
+	"os"
 	"reflect"
 	"regexp"
 	"runtime/debug"
@@ -48,6 +49,13 @@ func startCall(method string, cl *p9.Client, root, aux p9.File) *callResult {
 			if p := recover(); p != nil {
 				r.panicV = p
 				r.stack = string(debug.Stack())
+				// also on stderr: if another call hangs as a consequence, the
+				// supervisor needs to know what came first
+				id := ""
+				if f := strings.Fields(fmt.Sprint(caseDesc.Load())); len(f) > 0 {
+					id = f[0]
+				}
+				fmt.Fprintf(os.Stderr, "C02-CLIENT-PANIC case %s in %s: %v\n%s\n", id, method, p, r.stack)
 			}
 		}()
 		switch method {
